@@ -107,6 +107,17 @@ Definition n_zero_super (n : nsp) := match n with Nsp _ _ _ _ _ _ _ _ _ _ b _ _ 
 Definition n_globals_in_comp (n : nsp) := match n with Nsp _ _ _ _ _ _ _ _ _ _ _ g _ _ => g end.
 Definition n_inner (n : nsp) := match n with Nsp _ _ _ _ _ _ _ _ _ _ _ _ i _ => i end.
 Definition n_chain (n : nsp) := match n with Nsp _ _ _ _ _ _ _ _ _ _ _ _ _ c => c end.
+(* PendingFunctionDef.__init__ records the definition's positional parameters in the function's namespace
+   (first_parameter); generate_nsp leaves symtable's parameter list here *)
+Definition set_params (n : nsp) (ps : list ident) : nsp :=
+  match n with Nsp i k x l s _ m a b c d g inn ch => Nsp i k x l s ps m a b c d g inn ch end.
+Lemma set_params_id n ps : n_id (set_params n ps) = n_id n. Proof. destruct n; reflexivity. Qed.
+Lemma set_params_kind n ps : n_kind (set_params n ps) = n_kind n. Proof. destruct n; reflexivity. Qed.
+Lemma set_params_syms n ps : n_syms (set_params n ps) = n_syms n. Proof. destruct n; reflexivity. Qed.
+Lemma set_params_inner n ps : n_inner (set_params n ps) = n_inner n. Proof. destruct n; reflexivity. Qed.
+Lemma set_params_chain n ps : n_chain (set_params n ps) = n_chain n. Proof. destruct n; reflexivity. Qed.
+Lemma set_params_outer_map n ps : n_outer_map (set_params n ps) = n_outer_map n. Proof. destruct n; reflexivity. Qed.
+Lemma set_params_inner_nonlocal n ps : n_inner_nonlocal (set_params n ps) = n_inner_nonlocal n. Proof. destruct n; reflexivity. Qed.
 
 (* an ancestor on generate_nsp's stack *)
 Record anc := mkAnc { an_id : nat; an_kind : nkind; an_syms : list symbol }.
